@@ -22,11 +22,35 @@ func init() {
 		Rule: "one run = one generated (program, Template entry point, layout mode); the run enumerates writer fault offset x form (every byte offset in thorough; first/last/Write-call boundaries±1/sampled middle in quick), context cancellation before the call and at every poll the fault-free run performed, source-reader failures for RenderReader; a case is non-trivial when its fault actually fired; distinct = distinct (fault kind, entry, layout mode, form, offset class | poll index)",
 		Runs: func(tier string) int {
 			if tier == "thorough" {
-				return 1200
+				return 20000
 			}
-			return 120
+			return 600
 		},
 		Gen: genC12, Exec: execC12,
 		Assumes: []string{"the destination writer obeys the io.Writer contract (never n<len with nil error)", "mid-render cancellation is held only to all-or-nothing, not to 'must fail'", "vuego runs as an instrumented copy whose pass-through behaviour is checked against the repository's own tests"},
+	})
+	register(&Driver{
+		ID: "C10", Level: "exploration",
+		Rule: "one run = one sequential history (2-12 operations quick, 2-15 thorough, with repetitions, succeeding and failing programs, every entry point, map/struct/pointer data) on one long-lived engine under a seeded adversarial simulator configuration (map order desc/perm, pool lifo/fifo/random with poison and drops, frozen/coarse/jumping clock, path cache empty/nearly full/saturated); each operation is compared byte-for-byte with the same operation alone on a fresh engine under the reference configuration; evaluations = operations executed (history + references); distinct = distinct (outcome kind, entry point, data shape) and simulator configurations reached",
+		Runs: func(tier string) int {
+			if tier == "thorough" {
+				return 60000
+			}
+			return 2500
+		},
+		Gen: genC10, Exec: execC10,
+		Assumes: []string{"reference = the same code on a fresh engine with ascending map order, no recycling and a ticking clock", "simgen's rewrite preserves vuego's behaviour (validated by the repository's tests in pass-through mode)"},
+	})
+	register(&Driver{
+		ID: "C16", Level: "exploration",
+		Rule: "one run = a history of 2-6 renders over 1-2 generated pages holding 1-4 uniquely marked v-once placements each (top level, loop body, on the loop element, component included 1-3 times, two components, side by side, unreachable branch, component inside a loop, component reached directly and through a wrapper, nested loops, shorthand tag, layout, component shared by page and layout), every entry point, frozen/coarse/jumping/ticking simulated clock, recycled pools; oracle = occurrences of each marker vs a model of the statement computed by the generator; distinct = distinct (entry class, placement, expected count)",
+		Runs: func(tier string) int {
+			if tier == "thorough" {
+				return 60000
+			}
+			return 3000
+		},
+		Gen: genC16, Exec: execC16,
+		Assumes: []string{"expected counts come from the generator's knowledge of loop lengths and conditions, not from vuego", "v-once on an element that also carries v-for counts loop iterations as instantiations of the same element"},
 	})
 }
